@@ -117,6 +117,112 @@ def _layer_ops(ex, st, k):
                'a layer is faded (alpha scaled by its opacity, or blended with it) exactly when it has an opacity < 1')
 
 
+def _layer_over(ex, st, k):
+    """the 'over' step: dest = the result so far, source = THIS layer's (clipped / converted / faded) image, in that order"""
+    import z3
+    from pyvc.values import eq, VStr, VSeq
+    evs_ = st.trace[getattr(st, 'iter_start_trace', 0):]
+    pre = st.iter_start_state
+    res0 = pre.env['result']
+    as_img = [e for e in evs_ if e.name == 'as_image']
+    ops = [e for e in evs_ if e.name in ('alpha_composite', 'blend', 'paste')]
+    if len(as_img) != 1 or len(ops) != 1:
+        return
+    op = ops[0]
+    # everything derived from this layer's image inside the iteration
+    derived = [as_img[0].result]
+    made_by = {}
+    for e in evs_:
+        if e.name == 'mask_image' and e.args and any(e.args[0] is d for d in derived):
+            derived.append(e.result)
+        if e.name == 'convert' and e.recv is not None and any(e.recv.t.eq(d.t) for d in derived if hasattr(d, 't')):
+            derived.append(e.result)
+            made_by[id(e.result)] = e
+    final = st.env['img']
+    is_derived = any(final is d for d in derived)
+
+    def mode(v):
+        return ex.opaque_field(pre, v, 'mode').t
+    alpha_modes = lambda v: z3.Or(mode(v) == z3.StringVal('RGBA'), mode(v) == z3.StringVal('P'))   # noqa
+    tested_alpha = alpha_modes(final)
+    if id(final) in made_by:
+        tested_alpha = z3.Or(tested_alpha, mode(made_by[id(final)].recv) == z3.StringVal('P'))
+    sup = [e for e in evs_ if e.name == 'has_alpha_composite_support']
+    composite = z3.And(mode(res0) == z3.StringVal('RGBA'), ex.truth(st, sup[0].result)) if sup else z3.BoolVal(False)
+    origin = lambda v: isinstance(v, VSeq) and v.concrete and len(v.items) == 2 and all(x.conc() == 0 for x in v.items)   # noqa
+    if op.name == 'alpha_composite':
+        ok = len(op.args) == 2 and op.args[0] is res0 and op.args[1] is final and st.env['result'] is op.result and is_derived
+        g = z3.And(z3.BoolVal(bool(ok)), composite, tested_alpha)
+    elif op.name == 'blend':
+        ok = len(op.args) == 3 and op.args[0] is res0 and op.args[1] is final and st.env['result'] is op.result and is_derived
+        g = z3.And(z3.BoolVal(bool(ok)), z3.Not(composite))
+    else:
+        ok = op.recv is not None and hasattr(res0, 't') and op.recv.t.eq(res0.t) and len(op.args) in (2, 3) and op.args[0] is final \
+            and origin(op.args[1]) and st.env['result'] is res0 and is_derived
+        g = z3.BoolVal(bool(ok))
+        if ok and len(op.args) == 3:
+            # transparency of the layer is honoured: the mask is the layer image itself
+            g = z3.And(g, z3.BoolVal(op.args[2] is final), tested_alpha, z3.Not(composite))
+        elif ok:
+            # (a plain paste follows a mode test on the final image itself: no palette conversion happened in between)
+            g = z3.And(g, z3.Not(alpha_modes(final)))
+    cont = [(i, e) for i, e in enumerate(evs_) if e.name == 'contains' and len(e.args) == 2 and isinstance(e.args[1], VStr)
+            and e.args[1].conc() == 'transparency']
+    g_key = z3.BoolVal(len(cont) == 1)
+    if len(cont) == 1:
+        i0, c = cont[0]
+        nxt = evs_[i0 + 1] if i0 + 1 < len(evs_) else None
+        conv = nxt is not None and nxt.name == 'convert' and len(nxt.args) == 1 and isinstance(nxt.args[0], VStr) \
+            and nxt.args[0].conc() == 'RGBA' and any(nxt.recv.t.eq(d.t) for d in derived if hasattr(d, 't'))
+        g_key = z3.Implies(ex.truth(st, c.result), z3.BoolVal(bool(conv)))
+    yield ('colour_key_becomes_alpha', g_key,
+           "an image with a fixed transparency value ('transparency' in img.info) is converted to RGBA before it is combined, "
+           'so its transparent colour stays transparent')
+    yield ('layer_goes_over_the_result_so_far', g,
+           'the layer image (source) is combined OVER the result so far (destination) - alpha_composite(result, img) / '
+           'blend(result, img, opacity) / result.paste(img, (0, 0)[, img]) - and the new result is the outcome; images with an '
+           'alpha channel or palette keep their transparency (alpha_composite or a masked paste), only others are pasted plainly')
+
+
+def _merge_result(ex, st, post, result):
+    import z3
+    created = [e for i, e in T.evs(st, 'create_image')]
+    if not created:
+        return
+    srcs = [e for i, e in T.evs(st, 'ImageSource')]
+    cov = post.env['coverage']
+    def same(a, b):
+        a = a.val if hasattr(a, 'val') else a
+        b = b.val if hasattr(b, 'val') else b
+        return hasattr(a, 't') and hasattr(b, 't') and a.t.eq(b.t)
+    masks = [e for i, e in T.evs(st, 'mask_image') if len(e.args) == 4 and (e.args[3] is cov or same(e.args[3], cov))]
+    pastes = [(i, e) for i, e in T.evs(st, 'paste')]
+    ok = len(srcs) == 1 and result is srcs[0].result and srcs[0].kwargs.get('size') is not None and srcs[0].kwargs.get('image_opts') is post.env['image_opts']
+    g = z3.BoolVal(bool(ok))
+    if ok:
+        has_cov = ex.truth(st, cov)
+        if len(created) == 2 and masks:
+            bg, m = created[1], masks[-1]
+            last = pastes[-1][1] if pastes else None
+            okc = last is not None and last.recv is not None and last.recv.t.eq(bg.result.t) and len(last.args) == 3 \
+                and last.args[0] is m.args[0] and last.args[2] is m.result and srcs[0].args[0] is bg.result \
+                and m.args[1] is post.env['bbox'] and m.args[2] is post.env['bbox_srs'] \
+                and bg.args[0] is created[0].args[0] and bg.args[1] is post.env['image_opts']
+            g = z3.And(g, has_cov, z3.BoolVal(bool(okc)))
+        else:
+            g = z3.And(g, z3.Not(has_cov), z3.BoolVal(len(created) == 1 and srcs[0].args[0] is st.env.get('result')))
+        kc = srcs[0].kwargs.get('cacheable')
+        layers = st.heap[post.env['self'].ref]['layers']
+        i = z3.Int('i_mc')
+        all_c = z3.ForAll([i], z3.Implies(z3.And(0 <= i, i < layers.length()),
+                                          ex.truth(st, ex.opaque_field(st, layers.elem(i).items[0], 'cacheable'))))
+        g = z3.And(g, z3.BoolVal(kc is not None), z3.Implies(ex.truth(st, kc), all_c) if kc is not None else z3.BoolVal(False))
+    yield ('merged_result_is_returned', g,
+           'the returned ImageSource holds the composed image - with a request-wide coverage: a fresh background on which the '
+           'composition is pasted through mask_image(composition, bbox, bbox_srs, coverage) - with the requested size/options, '
+           'and is cacheable only if every layer image is')
+
+
 contract(M + 'LayerMerger.merge', props=['C14', 'C10'],
          types=dict(image_opts='opaque', size='opt[tuple[int,int]]', bbox='opaque', bbox_srs='opaque', coverage='opt[opaque]'),
          returns='opaque', default_callee='opaque', opaque_fields=MF, stable_fields=list(MF),
@@ -126,8 +232,9 @@ contract(M + 'LayerMerger.merge', props=['C14', 'C10'],
                       'constant': {'pure': True}, 'putalpha': {'pure': True}, 'alpha_composite': {'pure': True},
                       'blend': {'pure': True}, 'paste': {'pure': True}, 'ImageSource': {'pure': True},
                       'BlankImageSource': {'pure': True}},
-         loops={0: dict(inv=[], types={'result': 'opaque'}, body_trace=[_layer_ops])},
-         trace=[_fast_path_guard, _global_limit_applied, _output_size])
+         loops={0: dict(inv=['implies(cacheable, all(self.layers[i][0].cacheable for i in range(_k)))'],
+                        types={'result': 'opaque', 'cacheable': 'bool'}, body_trace=[_layer_ops, _layer_over])},
+         trace=[_fast_path_guard, _global_limit_applied, _output_size, _merge_result])
 
 
 # ---- opaque pruning: WMSSource.is_opaque ---------------------------------------------------------------------------------
